@@ -34,9 +34,9 @@ ASSUMPTIONS = [
 ]
 FLOORS = {"quick": {"positives": 1000, "negatives": 8000,
                     "negative_pairs": 800},
-          "thorough": {"positives": 10000, "negatives": 200000,
-                       "negative_pairs": 30000}}
-N_MODELS = {"quick": 700, "thorough": 12000}
+          "thorough": {"positives": 35000, "negatives": 800000,
+                       "negative_pairs": 100000}}
+N_MODELS = {"quick": 700, "thorough": 60000}
 PAIRS = {"quick": 3, "thorough": 4}
 
 
